@@ -134,7 +134,10 @@ func (ld *Layerdefs) removeLayerExportLinks(layer *Layerinfo) error {
 		if !fs.IsSymlink(item.Mount) {
 			return fmt.Errorf("Export %s is not a symlink; cannot remove", item.Mount)
 		}
-		fs.Remove(item.Mount)
+		err := fs.Remove(item.Mount)
+		if err != nil {
+			return err
+		}
 	}
 	return nil
 }
